@@ -173,9 +173,9 @@ pub fn property() -> Property {
     let mut jobs: Vec<Box<dyn JobT>> = Vec::new();
     let w = Weights { edit: 50, deliver: 40, redeliver: 5, merge: 0, snapshot: 0, merge_snapshot: 0, save_restore: 0, probe: 0 };
     let pc = PlanCfg::new(w).steps(8, 30).editors(2, 4);
-    jobs.push(mk_job("List<u32,u8>/index sweep on concurrently built states", 12000, 100_000, pc, Ctx::new(Disc::Causal), check_list_index).floor("nontrivial", 0.2).boxed());
+    jobs.push(mk_job("List<u32,u8>/index sweep on concurrently built states", 36000, 100_000, pc, Ctx::new(Disc::Causal), check_list_index).floor("nontrivial", 0.2).boxed());
     let pc = PlanCfg::new(Weights::mixed()).steps(8, 30).editors(2, 4);
-    jobs.push(mk_job("GList<u32>/index sweep on merged concurrent states", 12000, 100_000, pc, Ctx::new(Disc::Any), check_glist_index).floor("nontrivial", 0.2).boxed());
+    jobs.push(mk_job("GList<u32>/index sweep on merged concurrent states", 36000, 100_000, pc, Ctx::new(Disc::Any), check_glist_index).floor("nontrivial", 0.2).boxed());
     Property {
         id: "C13",
         rule: "Reachable List/GList states built by concurrent histories (equal-rational siblings, forked identifier paths, remote ops, GList merges); on the affected replica every few steps and on every replica at the end: List insert_index(i,x) for EVERY i in 0..=len+2 (clamped), append, delete_index(i) for every i<len+2 (None beyond len); GList insert(i,x) for every i in 0..=len, insert_after(Some(id)) and insert_before(Some(id)) for every id present; each returned op is applied to a clone and the read is compared with a Vec model (x at min(i,len); exactly the i-th element gone; immediately after/before the identified element; everything else in the same relative order). Non-trivial = the probed state contains two adjacent identifiers with the same leading rational (concurrently inserted neighbours); distinct = distinct Plan hash.".into(),
